@@ -6,12 +6,17 @@ and resolving labels into addresses while writing the result with the fjm Writer
 """
 
 import dataclasses
+import sys
 from collections import defaultdict
 from pathlib import Path
 from typing import Deque, List, Dict, Tuple, Optional
 
 from flipjump.fjm.fjm_writer import Writer
-from flipjump.utils.constants import WFLIP_LABEL_PREFIX, DEFAULT_MAX_MACRO_RECURSION_DEPTH
+from flipjump.utils.constants import (
+    WFLIP_LABEL_PREFIX,
+    DEFAULT_MAX_MACRO_RECURSION_DEPTH,
+    GAP_BETWEEN_PYTHONS_AND_PREPROCESSOR_MACRO_RECURSION_DEPTH,
+)
 from flipjump.utils.functions import save_debugging_labels
 from flipjump.utils.classes import PrintTimer
 from flipjump.assembler.fj_parser import parse_macro_tree
@@ -264,6 +269,10 @@ def assemble(
     :param max_recursion_depth: The compiler supports macros that recursively uses other macros,
     up to the specified recursion depth.
     """
+    # set python's recursion-limit before the first stage (the preprocessor sets it again for its own callers), so that the
+    #  parsing stage doesn't run under whatever limit the previous assembly in this process happened to leave.
+    sys.setrecursionlimit(max_recursion_depth + GAP_BETWEEN_PYTHONS_AND_PREPROCESSOR_MACRO_RECURSION_DEPTH)
+
     try:
         with PrintTimer('  parsing:         ', print_time=print_time):
             macros = parse_macro_tree(input_files, memory_width, warning_as_errors)
